@@ -195,6 +195,7 @@ func (n *e2Node) start(bootstrap bool, servers []raft.Server) error {
 	if err != nil {
 		return err
 	}
+	node = n.raft // the prometheus gauges of package main read this global
 	n.api = api.NewHTTP(n.ircNow(), n.raft, n.ircs, n.out, n.trans, e1Network, e2Password, n.dir, n.addr, true, *raftProtocolVersion)
 	// Restore() during NewRaft may have replaced the state already
 	n.mu.Lock()
